@@ -105,6 +105,12 @@ def k2(ctx):
                             "impl_deeper": maxdepth(g) > maxdepth(l)})
         dis.sort(key=lambda d: d["size"])
         rc, growth = sh([h["bin"], "k2-growth", "1000"], env=GOENV, timeout=600)
+        # growth per non-yielding iteration must be zero (finding D5, repaired by 5f77a8a): unless listed as open
+        m = re.search(r"per_iteration=([0-9.]+)", growth)
+        d5_open = any(k.get("kind") == "k2" and k.get("status") == "open" for k in load_known())
+        if (not m or float(m.group(1)) > 0.01) and not d5_open:
+            dis.insert(0, {"request": "(growth: 1000 iterations of loops that never yield, 6 shapes)", "impl": growth.strip()[:400],
+                           "model": "per_iteration=0.00 for every shape (stepDS_trampoline)", "size": 1, "impl_deeper": True})
         return {"ok": not dis, "evaluations": n, "histories": n, "distinct_nontrivial": len(distinct),
                 "n_disagreements": len(dis), "disagreements": dis[:20], "growth_witness": growth.strip(),
                 "samples": [f"{r} => {g[:200]}" for r, g in list(zip(reqs, gos))[100:103]]}
